@@ -612,10 +612,35 @@ def if_value_programs():
                 yield hdr + [{"t": "if", "c": "c", "k": k, "op": op}, {"t": "qop", "op": {"o": "call", "n": "gone", "ps": [["pi"]], "qs": [["q", 0]]}}]
 
 
+def empty_body_programs():
+    """gate definitions without any gate statement in the body (empty, or barriers only): the identity for the
+    standard.  Alone, with parameters, broadcast, conditioned, nested inside another definition, never called."""
+    bodies = [[], [{"o": "barrier", "qs": ["a"]}], [{"o": "barrier", "qs": ["a"]}, {"o": "barrier", "qs": ["a"]}]]
+    x0 = {"t": "qop", "op": {"o": "call", "n": "x", "ps": [], "qs": [["q", 0]]}}
+    for body in bodies:
+        for ps in ([], ["p"], ["p", "lam"]):
+            hdr = [{"t": "version"}, {"t": "incl", "f": "qelib1.inc"}, {"t": "qreg", "n": "q", "k": 2}, {"t": "creg", "n": "c", "k": 1},
+                   {"t": "gate", "n": "idle", "ps": ps, "qs": ["a"], "body": body}]
+            actual = [["/", ["pi"], ["lit", "2"]], ["lit", "0.5"]][:len(ps)]
+            call = {"o": "call", "n": "idle", "ps": actual, "qs": [["q", 0]]}
+            yield hdr + [x0]                                              # never called
+            yield hdr + [{"t": "qop", "op": call}, x0]
+            yield hdr + [x0, {"t": "qop", "op": dict(call, qs=[["q", None]])}]
+            yield hdr + [{"t": "if", "c": "c", "k": 1, "op": call}, x0]
+            outer = {"t": "gate", "n": "outer", "ps": ps, "qs": ["u", "v"],
+                     "body": [{"o": "call", "n": "idle", "ps": [["id", p] for p in ps], "qs": ["v"]},
+                              {"o": "call", "n": "cx", "ps": [], "qs": ["u", "v"]}]}
+            yield hdr + [outer, {"t": "qop", "op": {"o": "call", "n": "outer", "ps": actual, "qs": [["q", 1], ["q", 0]]}}]
+            only = {"t": "gate", "n": "outer", "ps": [], "qs": ["u"], "body": [{"o": "call", "n": "idle", "ps": actual, "qs": ["u"]}]}
+            yield hdr + [only, {"t": "qop", "op": {"o": "call", "n": "outer", "ps": [], "qs": [["q", None]]}}, x0]
+            # wrong arity of a call of the empty gate is still refused
+            yield hdr + [{"t": "qop", "op": dict(call, qs=[["q", 0], ["q", 1]])}]
+
+
 def tree_variant():
     """which repairs of the importer the checkout under verification has (read from its source with `ast`)"""
     i = qasm_tables.import_tables()
-    return {k: i[k] for k in ("if_skip", "if_rev", "barrier_checked", "empty_reg_ok", "body_dup")}
+    return {k: i[k] for k in ("if_skip", "if_rev", "barrier_checked", "empty_reg_ok", "body_dup", "empty_body_ok")}
 
 
 MUTATIONS = ["undeclared_reg", "undeclared_gate", "index_range", "repeated_qubit", "arity_param", "arity_qubit",
@@ -1144,12 +1169,14 @@ class C04(PropertyCheck):
         self._run(ctx, res, list(barrier_shape_programs()), ["stream=barrier-shapes"])
         self._run(ctx, res, list(empty_register_programs()), ["stream=empty-registers"])
         self._run(ctx, res, list(if_value_programs()), ["stream=if-values"])
+        self._run(ctx, res, list(empty_body_programs()), ["stream=empty-bodies"])
         res.notes.append("exhaustive: every operand-shape tuple over {q[0], q[last], q, r[0], r[last], r} for 2-operand gates "
                          "(cx, CX, cz, cu1, user gate) on registers of sizes 1-3 x 1-3 and for 3-operand gates (ccx, user gate), "
                          "plain and behind `if`; every measure operand shape (element / out of range / register / undeclared / "
                          "wrong kind on both sides); barrier operand tuples; every operand tuple containing an EMPTY register "
                          "for 1-3-operand gates, measure and barrier; `if(c==k)` for registers of 0-3 bits and every k up to "
-                         "2^n+2 on accepted and on refused operations")
+                         "2^n+2 on accepted and on refused operations; gate definitions with an empty / barrier-only body (called, "
+                         "broadcast, conditioned, nested, never called)")
         res.exhaustive = True
         res.notes.append("systematic: every qelib1 gate, U and CX x {indexed, whole-register broadcast, if on a 1-bit "
                          "register, if on a 2-bit register}; then generated programs and their malformed variants")
@@ -1200,6 +1227,8 @@ class C04(PropertyCheck):
             extra += list(empty_register_programs())
         if variant["barrier_checked"]:
             extra += [p for p in barrier_shape_programs()][::7]
+        if variant["empty_body_ok"]:
+            extra += list(empty_body_programs())
         rng.shuffle(extra)
         for p in extra[: (len(extra) if ctx.thorough else 50)]:
             yield p
